@@ -16,6 +16,7 @@ import (
 	"path/filepath"
 	"sort"
 	"strings"
+	"sync"
 	"testing"
 
 	"github.com/hyperledger/firefly-signer/pkg/abi"
@@ -196,6 +197,173 @@ func checkSignature(res *ethsigner.EIP712Result, digest []byte, key []byte) (vs 
 	return vs
 }
 
+// ---- kind "history": a sequence of related documents in one process
+//
+// The documents of a history agree on what a memo could be keyed on — the domain VALUES
+// (with another EIP712Domain type over them: another subset of the fields, the others being
+// extra fields of the domain object; another member order; another type for a field), the
+// struct NAMES (with other member lists), the type definitions (with another message,
+// another primary type, other domain values) — and some are the same document again.
+// Some are decoded into a new TypedData, some into one that was hashed before (with and
+// without clearing it first), some steps edit a decoded TypedData in place.  The judge
+// (tdgen.RunSession) holds every digest against the reference digest of what the variable
+// contains at that moment and against a new variable with the same content, keeps every
+// returned byte slice and compares it at the end, overwrites it and hashes again.
+
+type HistCase struct {
+	Session tdgen.Session `json:"session"`
+	Key     string        `json:"key"`
+	// FullSig: the last signature is also recovered with the independent curve arithmetic
+	// (which costs more than the rest of the history; every signature is held against the digest)
+	FullSig bool `json:"fullSig,omitempty"`
+}
+
+func judgeHist(c HistCase) []evid.Violation {
+	kb, err := hex.DecodeString(c.Key)
+	if err != nil || len(kb) != 32 {
+		return []evid.Violation{evid.V("harness", "bad key")}
+	}
+	o := tdgen.Options{Signer: secp256k1.KeyPairFromBytes(kb), PayloadReadOnly: true}
+	if c.FullSig {
+		o.CheckSignature = func(res *ethsigner.EIP712Result, digest []byte) []evid.Violation { return checkSignature(res, digest, kb) }
+	}
+	return tdgen.RunSession(c.Session, o)
+}
+
+var histRelations = []string{"same", "domain-type", "domain-type", "domain-type", "domain-values", "message", "members", "primary", "unrelated", "edit", "edit"}
+
+func genHistCase(rt *rapid.T) (HistCase, []string, bool) {
+	base := tdgen.GenParts(rt, 4)
+	cur := base
+	held := map[int]*tdgen.Parts{} // what a re-usable variable holds, when that is known to be one well-formed document
+	used := map[int]bool{}
+	classes := map[string]bool{}
+	var steps []tdgen.Step
+	related := 0
+	via := func(l string) string {
+		return rapid.SampledFrom([]string{"", "", "", "hashstruct", "hashstruct", "sign"}).Draw(rt, l+".via")
+	}
+	place := func(l string, p *tdgen.Parts) {
+		st := tdgen.Step{Var: -1, Op: "decode", Doc: p.Text(rt, l), Via: via(l), WellFormed: true}
+		switch rapid.IntRange(0, 5).Draw(rt, l+".how") {
+		case 0, 1, 2:
+			classes["hist:how:new-variable"] = true
+		case 3:
+			st.Var, st.Op = rapid.IntRange(0, 1).Draw(rt, l+".var"), "reset-decode"
+			classes["hist:how:reset-and-decode-into-used-variable"] = used[st.Var]
+			held[st.Var] = p
+		default:
+			st.Var = rapid.IntRange(0, 1).Draw(rt, l+".var")
+			if used[st.Var] {
+				// encoding/json merges into the maps of the variable: what it then holds is
+				// judged for what it is
+				st.WellFormed = false
+				held[st.Var] = nil
+				classes["hist:how:decode-into-used-variable"] = true
+			} else {
+				held[st.Var] = p
+			}
+		}
+		if st.Var >= 0 {
+			used[st.Var] = true
+		}
+		steps = append(steps, st)
+	}
+	place("d0", base)
+	n := rapid.IntRange(3, 7).Draw(rt, "nDocs")
+	for i := 1; i < n; i++ {
+		l := fmt.Sprintf("d%d", i)
+		from := cur
+		if rapid.Bool().Draw(rt, l+".fromBase") {
+			from = base
+		}
+		rel := rapid.SampledFrom(histRelations).Draw(rt, l+".rel")
+		if rel == "edit" {
+			// in place, on a variable that holds a known document
+			var cand []int
+			for v := 0; v <= 1; v++ {
+				if held[v] != nil {
+					cand = append(cand, v)
+				}
+			}
+			if len(cand) == 0 {
+				rel = "domain-type"
+			} else {
+				v := rapid.SampledFrom(cand).Draw(rt, l+".var")
+				p := held[v].Clone()
+				switch rapid.IntRange(0, 2).Draw(rt, l+".edit") {
+				case 0:
+					// another EIP712Domain type over the same values, written into the variable's type set
+					q := p.WithDomainType(rt, l+".dt")
+					if !q.DomainDefined {
+						q.DomainDefined, q.Domain = true, nil
+					}
+					steps = append(steps, tdgen.Step{Var: v, Op: "set-typedef", Path: []string{eip712ref.DomainType}, Value: typeDefText(q.Domain), Via: via(l), WellFormed: true})
+					p = q
+					classes["hist:edit:domain-type-in-place"] = true
+				default:
+					paths, types := p.AtomicPaths()
+					if len(paths) == 0 {
+						steps = append(steps, tdgen.Step{Var: v, Op: "hash", Via: via(l), WellFormed: true})
+						classes["hist:edit:hash-again"] = true
+						break
+					}
+					k := rapid.IntRange(0, len(paths)-1).Draw(rt, l+".path")
+					nv := p.NewAtomic(rt, l+".value", types[k])
+					p.SetIn(paths[k], nv)
+					steps = append(steps, tdgen.Step{Var: v, Op: "set", Path: paths[k], Value: nv.Text(), Via: via(l), WellFormed: true})
+					classes["hist:edit:"+paths[k][0]+"-value-in-place"] = true
+				}
+				held[v] = p
+				cur = p
+				related++
+				classes["hist:rel:edit"] = true
+				continue
+			}
+		}
+		var next *tdgen.Parts
+		switch rel {
+		case "same":
+			next = from
+		case "domain-type":
+			next = from.WithDomainType(rt, l+".dt")
+		case "domain-values":
+			next = from.WithDomainValues(rt, l+".dv")
+		case "message":
+			next = from.WithMessage(rt, l+".msg")
+		case "members":
+			next = from.WithMembers(rt, l+".mem")
+		case "primary":
+			next = from.WithPrimary(rt, l+".pt")
+		default:
+			next = tdgen.GenParts(rt, 3)
+		}
+		if rel != "unrelated" {
+			related++
+		}
+		classes["hist:rel:"+rel] = true
+		place(l, next)
+		cur = next
+	}
+	var cl []string
+	for c, on := range classes {
+		if on {
+			cl = append(cl, c)
+		}
+	}
+	cl = append(cl, fmt.Sprintf("hist:steps:%d", len(steps)))
+	sort.Strings(cl)
+	return HistCase{Session: tdgen.Session{Steps: steps}, Key: genKey(rt), FullSig: rapid.IntRange(0, 3).Draw(rt, "fullSig") == 0}, cl, related >= 1
+}
+
+func typeDefText(ms []eip712ref.Member) string {
+	a := &eip712ref.JNode{Kind: 'a'}
+	for _, m := range ms {
+		a.Vals = append(a.Vals, eip712ref.JObj().Set("name", eip712ref.JStr(m.Name)).Set("type", eip712ref.JStr(m.Type)))
+	}
+	return a.Text()
+}
+
 // ---- kind "wallet": the same through the filesystem wallet
 
 type WalletCase struct {
@@ -254,7 +422,36 @@ func judgeWallet(c WalletCase) (vs []evid.Violation) {
 	if err != nil {
 		return []evid.Violation{evid.V("wallet-sign", "fswallet SignTypedDataV4 failed: %v", err)}
 	}
-	return checkSignature(res, ref.Result.Digest, kb)
+	vs = checkSignature(res, ref.Result.Digest, kb)
+	if len(vs) > 0 {
+		return vs
+	}
+	// the same wallet asked again (the signer now comes from its cache), with the same
+	// payload value and with a new decode: a signature over the same digest each time, and
+	// the first result is still what it was
+	first := append([]byte(nil), res.SignatureRSV...)
+	for again := 0; again < 2; again++ {
+		if again == 1 {
+			td = new(eip712.TypedData)
+			if err := json.Unmarshal(c.Doc, td); err != nil {
+				return []evid.Violation{evid.V("accept-well-formed", "json.Unmarshal into TypedData failed: %v", err)}
+			}
+		}
+		res2, err := w.SignTypedDataV4(ctx, from, td)
+		if err != nil || res2 == nil {
+			return []evid.Violation{evid.V("wallet-sign", "fswallet SignTypedDataV4 failed when asked again (%d): %v", again, err)}
+		}
+		if !bytes.Equal(res2.Hash, ref.Result.Digest) {
+			vs = append(vs, evid.V("wallet-history", "asked again (%d): hash %x, digest %x", again, []byte(res2.Hash), ref.Result.Digest))
+		} else if !bytes.Equal(res2.SignatureRSV, first) {
+			// (a signer need not be deterministic: a different signature is judged like the first)
+			vs = append(vs, checkSignature(res2, ref.Result.Digest, kb)...)
+		}
+	}
+	if !bytes.Equal(res.SignatureRSV, first) || !bytes.Equal(res.Hash, ref.Result.Digest) {
+		vs = append(vs, evid.V("result-stable", "the first signing result changed after later calls"))
+	}
+	return vs
 }
 
 // ---- kind "abi": ABItoTypedDataV4 against the hand-written type set
@@ -302,32 +499,12 @@ func judgeABI(c ABICase) (vs []evid.Violation) {
 		return []evid.Violation{evid.V("harness", "ABI parameter does not parse: %v", err)}
 	}
 	ctx := context.Background()
+	tcBefore := tc.String()
 	pt, ts, err := eip712.ABItoTypedDataV4(ctx, tc)
 	if err != nil {
 		return []evid.Violation{evid.V("abi-accept", "ABItoTypedDataV4 failed: %v", err)}
 	}
-	if pt != c.Primary {
-		vs = append(vs, evid.V("abi-primary", "primary type %q, want %q", pt, c.Primary))
-	}
-	derived := eip712ref.Types{}
-	for name, t := range ts {
-		var ms []eip712ref.Member
-		for _, m := range t {
-			if m == nil {
-				return append(vs, evid.V("abi-types", "nil member in derived type %s", name))
-			}
-			ms = append(ms, eip712ref.Member{Name: m.Name, Type: m.Type})
-		}
-		derived[name] = ms
-	}
-	closure := append([]string{c.Primary}, eip712ref.Dependencies(c.Primary, hand)...)
-	for _, name := range closure {
-		wantET, _ := eip712ref.EncodeType(name, hand)
-		gotET, err := eip712ref.EncodeType(name, derived)
-		if err != nil || gotET != wantET {
-			vs = append(vs, evid.V("abi-types", "encodeType(%s) over the derived type set = %q (%v), hand-written = %q", name, gotET, err, wantET))
-		}
-	}
+	derived, vs := compareDerived(pt, ts, c.Primary, hand)
 	if len(vs) > 0 {
 		return vs
 	}
@@ -348,6 +525,198 @@ func judgeABI(c ABICase) (vs []evid.Violation) {
 		}
 		if !bytes.Equal(got, ref.Result.MessageHash) {
 			return append(vs, evid.V("abi-hash", "HashStruct with the derived type set = %x, reference over the hand-written types = %x", []byte(got), ref.Result.MessageHash))
+		}
+	}
+	// the derived type set belongs to the caller and the type tree is only read: overwrite
+	// every member of the first result, derive again from the same tree, and once more from
+	// a new parse of the same parameter — each must be the hand-written set again
+	for _, t := range ts {
+		for _, m := range t {
+			m.Name, m.Type = "overwritten", "overwritten[]"
+		}
+	}
+	for name := range ts {
+		ts[name] = nil
+	}
+	if after := tc.String(); after != tcBefore {
+		vs = append(vs, evid.V("abi-input-unchanged", "the type tree reads %q after ABItoTypedDataV4, %q before", after, tcBefore))
+	}
+	for again := 0; again < 2; again++ {
+		if again == 1 {
+			var p2 abi.Parameter
+			if err := json.Unmarshal(c.Param, &p2); err != nil {
+				return append(vs, evid.V("harness", "ABI parameter does not unmarshal: %v", err))
+			}
+			if tc, err = p2.TypeComponentTree(); err != nil {
+				return append(vs, evid.V("harness", "ABI parameter does not parse the second time: %v", err))
+			}
+		}
+		pt2, ts2, err := eip712.ABItoTypedDataV4(ctx, tc)
+		if err != nil {
+			return append(vs, evid.V("abi-accept", "ABItoTypedDataV4 failed when called again (%d): %v", again, err))
+		}
+		if _, dv := compareDerived(pt2, ts2, c.Primary, hand); len(dv) > 0 {
+			return append(vs, evid.V("abi-history:"+dv[0].Clause, "after the caller overwrote the first derived type set, deriving again (%d) gives: %s", again, dv[0].Detail))
+		}
+		got, err := eip712.HashStruct(ctx, pt2, msg, ts2)
+		if err != nil || !bytes.Equal(got, ref.Result.MessageHash) {
+			return append(vs, evid.V("abi-history:abi-hash", "HashStruct with the type set derived again (%d) = %x / %v, reference %x", again, []byte(got), err, ref.Result.MessageHash))
+		}
+	}
+	return vs
+}
+
+// compareDerived holds the outcome of ABItoTypedDataV4 against the hand-written type set:
+// the primary type, and encodeType of every struct of its closure.
+func compareDerived(pt string, ts eip712.TypeSet, primary string, hand eip712ref.Types) (derived eip712ref.Types, vs []evid.Violation) {
+	if pt != primary {
+		vs = append(vs, evid.V("abi-primary", "primary type %q, want %q", pt, primary))
+	}
+	derived = eip712ref.Types{}
+	for name, t := range ts {
+		var ms []eip712ref.Member
+		for _, m := range t {
+			if m == nil {
+				return derived, append(vs, evid.V("abi-types", "nil member in derived type %s", name))
+			}
+			ms = append(ms, eip712ref.Member{Name: m.Name, Type: m.Type})
+		}
+		derived[name] = ms
+	}
+	closure := append([]string{primary}, eip712ref.Dependencies(primary, hand)...)
+	for _, name := range closure {
+		wantET, _ := eip712ref.EncodeType(name, hand)
+		gotET, err := eip712ref.EncodeType(name, derived)
+		if err != nil || gotET != wantET {
+			vs = append(vs, evid.V("abi-types", "encodeType(%s) over the derived type set = %q (%v), hand-written = %q", name, gotET, err, wantET))
+		}
+	}
+	return derived, vs
+}
+
+// ---- kind "shared": ONE decoded payload / type set / ABI type tree used by several goroutines at once
+//
+// (kind "concurrent" judges independent cases from several goroutines; state that hangs off
+// one shared definition is only reached when the callers share that definition.)  Each round
+// decodes the document anew — the first use of the fresh objects is part of the race — and
+// starts Workers goroutines that hash at the same time: the one *TypedData itself, a
+// TypedData of their own over the shared type set / domain / message maps, HashStruct over
+// the shared type set and message, ABItoTypedDataV4 over one shared type tree.  Every answer
+// must be the reference's, and what was shared must be left as it was.
+
+type SharedCase struct {
+	Doc     json.RawMessage `json:"doc"`
+	ABI     *ABICase        `json:"abi,omitempty"` // also: ABItoTypedDataV4 from one shared type tree
+	Workers int             `json:"workers"`
+	Rounds  int             `json:"rounds"`
+}
+
+func judgeShared(c SharedCase) (vs []evid.Violation) {
+	ref := eip712ref.FromJSON(c.Doc)
+	if ref.Status != eip712ref.OK {
+		return []evid.Violation{evid.V("harness", "reference does not accept the document: %s", ref.Reason)}
+	}
+	ctx := context.Background()
+	var hand eip712ref.Types
+	if c.ABI != nil {
+		var err error
+		if hand, err = typesFromJSON(c.ABI.Types); err != nil {
+			return []evid.Violation{evid.V("harness", "%v", err)}
+		}
+	}
+	workers := c.Workers
+	if workers < 2 {
+		workers = 2
+	}
+	var mu sync.Mutex
+	report := func(v evid.Violation) {
+		mu.Lock()
+		vs = append(vs, v)
+		mu.Unlock()
+	}
+	for round := 0; round < c.Rounds && len(vs) == 0; round++ {
+		td := new(eip712.TypedData)
+		if err := json.Unmarshal(c.Doc, td); err != nil {
+			return []evid.Violation{evid.V("accept-well-formed", "json.Unmarshal into TypedData failed: %v", err)}
+		}
+		_, domainDeclared := td.Types[eip712.EIP712Domain]
+		before, err := tdgen.Snapshot(td)
+		if err != nil {
+			return []evid.Violation{evid.V("harness", "%v", err)}
+		}
+		var tc abi.TypeComponent
+		var tcBefore string
+		if c.ABI != nil {
+			var p abi.Parameter
+			if err := json.Unmarshal(c.ABI.Param, &p); err != nil {
+				return []evid.Violation{evid.V("harness", "ABI parameter does not unmarshal: %v", err)}
+			}
+			var err error
+			if tc, err = p.TypeComponentTree(); err != nil {
+				return []evid.Violation{evid.V("harness", "ABI parameter does not parse: %v", err)}
+			}
+			tcBefore = tc.String()
+		}
+		start := make(chan struct{})
+		var wg sync.WaitGroup
+		for w := 0; w < workers; w++ {
+			wg.Add(1)
+			go func(w int) {
+				defer wg.Done()
+				defer func() {
+					if p := recover(); p != nil {
+						report(evid.V("no-panic", "round %d worker %d: panic: %v", round, w, p))
+					}
+				}()
+				<-start
+				mode := (w + round) % 4
+				if mode == 3 && tc == nil {
+					mode = 2
+				}
+				switch mode {
+				case 0:
+					d, err := eip712.EncodeTypedDataV4(ctx, td)
+					if err != nil || !bytes.Equal(d, ref.Result.Digest) {
+						report(evid.V("shared-payload", "round %d worker %d: EncodeTypedDataV4 on the payload shared by %d goroutines = %x / %v, reference %x", round, w, workers, []byte(d), err, ref.Result.Digest))
+					}
+				case 1:
+					own := &eip712.TypedData{Types: td.Types, PrimaryType: td.PrimaryType, Domain: td.Domain, Message: td.Message}
+					d, err := eip712.EncodeTypedDataV4(ctx, own)
+					if err != nil || !bytes.Equal(d, ref.Result.Digest) {
+						report(evid.V("shared-type-set", "round %d worker %d: EncodeTypedDataV4 on a payload of its own over the type set / domain / message shared by %d goroutines = %x / %v, reference %x", round, w, workers, []byte(d), err, ref.Result.Digest))
+					}
+				case 2:
+					if td.PrimaryType != eip712.EIP712Domain {
+						m, err := eip712.HashStruct(ctx, td.PrimaryType, td.Message, td.Types)
+						if err != nil || !bytes.Equal(m, ref.Result.MessageHash) {
+							report(evid.V("shared-type-set", "round %d worker %d: HashStruct(message) over the shared type set = %x / %v, reference %x", round, w, []byte(m), err, ref.Result.MessageHash))
+						}
+					} else if domainDeclared {
+						m, err := eip712.HashStruct(ctx, eip712.EIP712Domain, td.Domain, td.Types)
+						if err != nil || !bytes.Equal(m, ref.Result.DomainSeparator) {
+							report(evid.V("shared-type-set", "round %d worker %d: HashStruct(EIP712Domain) over the shared type set = %x / %v, reference %x", round, w, []byte(m), err, ref.Result.DomainSeparator))
+						}
+					}
+				default:
+					pt, ts, err := eip712.ABItoTypedDataV4(ctx, tc)
+					if err != nil {
+						report(evid.V("abi-accept", "round %d worker %d: ABItoTypedDataV4 on the shared type tree failed: %v", round, w, err))
+						return
+					}
+					if _, dv := compareDerived(pt, ts, c.ABI.Primary, hand); len(dv) > 0 {
+						report(evid.V("shared-abi-tree:"+dv[0].Clause, "round %d worker %d: %s", round, w, dv[0].Detail))
+					}
+				}
+			}(w)
+		}
+		close(start)
+		wg.Wait()
+		// what the goroutines shared was only read
+		if after, err := tdgen.Snapshot(td); err != nil || tdgen.Canon(after) != tdgen.Canon(before) {
+			report(evid.V("payload-unchanged", "round %d: hashing wrote into the TypedData / type set the goroutines shared (%v)\nbefore: %s\nafter:  %s", round, err, tdgen.Canon(before), tdgen.Canon(after)))
+		}
+		if tc != nil && tc.String() != tcBefore {
+			report(evid.V("abi-input-unchanged", "round %d: the shared type tree reads %q after ABItoTypedDataV4, %q before", round, tc.String(), tcBefore))
 		}
 	}
 	return vs
@@ -517,6 +886,11 @@ func TestCheck(t *testing.T) {
 	cpool := evid.NewPool(rec, "concurrent", judgeDoc, 32)
 	kWallet := evid.NewKind(rec, "wallet", judgeWallet)
 	kABI := evid.NewKind(rec, "abi", judgeABI)
+	kHist := evid.NewKind(rec, "history", judgeHist)
+	kShared := evid.NewKind(rec, "shared", judgeShared).DeclareEach()
+	pABI := evid.NewPool(rec, "concurrent-abi", judgeABI, 32)
+	pWallet := evid.NewPool(rec, "concurrent-wallet", judgeWallet, 8)
+	pHist := evid.NewPool(rec, "concurrent-history", judgeHist, 16)
 	rec.Corpus(t)
 
 	atomTypes := map[string]bool{}
@@ -530,6 +904,14 @@ func TestCheck(t *testing.T) {
 		kDoc.Check(rt, c, nt, append(cl, vcl...)...)
 	})
 	rec.Extra("atomic_types_with_message_values", fmt.Sprintf("%d of 100 (shard %d)", len(atomTypes), rec.Shard))
+
+	rec.Rapid(t, "history", rec.N(600, 5000), func(rt *rapid.T) {
+		c, cl, nt := genHistCase(rt)
+		pHist.Offer(c)
+		kHist.Check(rt, c, nt, cl...)
+	})
+
+	var abiCases []ABICase
 
 	rec.Rapid(t, "abi", rec.N(500, 4000), func(rt *rapid.T) {
 		a := tdgen.GenABI(rt, 5)
@@ -552,16 +934,48 @@ func TestCheck(t *testing.T) {
 		if strings.Contains(string(c.Param), `"struct `+a.Primary+`"`) {
 			cl = append(cl, "abi:no-contract-prefix")
 		}
+		pABI.Offer(c)
+		if len(abiCases) < 64 {
+			abiCases = append(abiCases, c)
+		}
 		kABI.Check(rt, c, len(reach) >= 2, cl...)
+	})
+
+	rec.Rapid(t, "shared", rec.N(120, 1000), func(rt *rapid.T) {
+		// the heaviest of three documents: long hashes overlap
+		var d *tdgen.Doc
+		for i := 0; i < 3; i++ {
+			if x := tdgen.GenDoc(rt, 8, true); d == nil || tdgen.CountNodes(x.Root) > tdgen.CountNodes(d.Root) {
+				d = x
+			}
+		}
+		c := SharedCase{Doc: json.RawMessage(d.Root.Text()), Workers: rapid.SampledFrom([]int{4, 8, 16}).Draw(rt, "workers"), Rounds: 3}
+		cl := []string{"shared", fmt.Sprintf("shared:workers:%d", c.Workers)}
+		if len(abiCases) > 0 && rapid.Bool().Draw(rt, "withABI") {
+			a := abiCases[rapid.IntRange(0, len(abiCases)-1).Draw(rt, "abi")]
+			c.ABI = &a
+			cl = append(cl, "shared:abi-type-tree")
+		}
+		if d.Stats.DomainMask < 0 {
+			cl = append(cl, "shared:no-domain-type")
+		} else {
+			cl = append(cl, "shared:one-payload")
+		}
+		_, nt := docClasses(d.Stats)
+		kShared.Check(rt, c, nt, cl...)
 	})
 
 	rec.Rapid(t, "wallet", rec.N(40, 300), func(rt *rapid.T) {
 		d := tdgen.GenDoc(rt, 4, true)
 		c := WalletCase{Doc: json.RawMessage(d.Root.Text()), Key: genKey(rt), Password: rapid.StringMatching(`[a-zA-Z0-9]{1,12}`).Draw(rt, "password")}
 		_, nt := docClasses(d.Stats)
+		pWallet.Offer(c)
 		kWallet.Check(rt, c, nt, "wallet")
 	})
 	cpool.Run(t, 8, 3, 8)
+	pABI.Run(t, 8, 3, 16)
+	pHist.Run(t, 8, 2, 8)
+	pWallet.Run(t, 4, 2, 8)
 }
 
 func TestReplay(t *testing.T) {
@@ -570,5 +984,10 @@ func TestReplay(t *testing.T) {
 	evid.NewPool(rec, "concurrent", judgeDoc, 0)
 	evid.NewKind(rec, "wallet", judgeWallet)
 	evid.NewKind(rec, "abi", judgeABI)
+	evid.NewKind(rec, "history", judgeHist)
+	evid.NewKind(rec, "shared", judgeShared).DeclareEach()
+	evid.NewPool(rec, "concurrent-abi", judgeABI, 0)
+	evid.NewPool(rec, "concurrent-wallet", judgeWallet, 0)
+	evid.NewPool(rec, "concurrent-history", judgeHist, 0)
 	rec.Replay(t)
 }
